@@ -32,6 +32,7 @@ CONSTANTS W,          \* number of worker threads (>= 1)
           Cap,        \* channel capacity (the code uses sync_channel(W))
           Fail,       \* indices whose processing function panics
           HookOn,     \* the process-exiting panic hook is installed
+          HookLate,   \* negative control: the hook is installed only after the workers were started
           AllowDrop   \* the consumer may abandon the iterator
 
 VARIABLES len,        \* length of the upstream (unknown to the pipe until exhausted)
@@ -43,15 +44,17 @@ VARIABLES len,        \* length of the upstream (unknown to the pipe until exhau
           cons,       \* consumer: "run", "done" (saw end of stream), "dropped"
           calls,      \* calls[i] = how often item i was processed
           aborted,    \* process::exit was called by the panic hook
+          hook,       \* the panic hook is in place (in the code: before the first worker is spawned)
           srcAtDrop   \* value of src when the consumer dropped (history, set once)
 
-vars == <<len, src, pc, tk, sok, sendNext, chan, out, cons, calls, aborted, srcAtDrop>>
+vars == <<hook, len, src, pc, tk, sok, sendNext, chan, out, cons, calls, aborted, srcAtDrop>>
 
 Workers == 1..W
 Gone(w) == pc[w] \in {"exit", "dead"}
 closed == cons = "dropped"
 
 Init == /\ len \in Lens
+        /\ hook = (HookOn /\ ~HookLate)
         /\ src = 0
         /\ pc = [w \in Workers |-> "top"]
         /\ tk = [w \in Workers |-> 0]
@@ -72,24 +75,24 @@ Take(w) == /\ ~aborted /\ pc[w] = "top"
                    /\ pc' = [pc EXCEPT ![w] = "taken"]
               ELSE /\ pc' = [pc EXCEPT ![w] = "exit"]
                    /\ UNCHANGED <<tk, src>>
-           /\ UNCHANGED <<len, sok, sendNext, chan, out, cons, calls, aborted, srcAtDrop>>
+           /\ UNCHANGED <<hook, len, sok, sendNext, chan, out, cons, calls, aborted, srcAtDrop>>
 
 \* the processing function; a panic either exits the process (hook) or kills the thread
 Compute(w) == /\ ~aborted /\ pc[w] = "taken"
               /\ IF tk[w] \in Fail
-                 THEN /\ IF HookOn THEN aborted' = TRUE /\ pc' = pc
+                 THEN /\ IF hook THEN aborted' = TRUE /\ pc' = pc
                                    ELSE aborted' = aborted /\ pc' = [pc EXCEPT ![w] = "dead"]
                       /\ calls' = [calls EXCEPT ![tk[w]] = @ + 1]
                  ELSE /\ calls' = [calls EXCEPT ![tk[w]] = @ + 1]
                       /\ pc' = [pc EXCEPT ![w] = "computed"]
                       /\ aborted' = aborted
-              /\ UNCHANGED <<len, src, tk, sok, sendNext, chan, out, cons, srcAtDrop>>
+              /\ UNCHANGED <<hook, len, src, tk, sok, sendNext, chan, out, cons, srcAtDrop>>
 
 \* the turn check succeeds
 SpinOk(w) == /\ ~aborted /\ pc[w] = "computed"
              /\ sendNext = tk[w]
              /\ pc' = [pc EXCEPT ![w] = "ready"]
-             /\ UNCHANGED <<len, src, tk, sok, sendNext, chan, out, cons, calls, aborted, srcAtDrop>>
+             /\ UNCHANGED <<hook, len, src, tk, sok, sendNext, chan, out, cons, calls, aborted, srcAtDrop>>
 
 \* tx.send: blocks while the channel is full, fails iff the receiver is gone
 Send(w) == /\ ~aborted /\ pc[w] = "ready"
@@ -100,36 +103,41 @@ Send(w) == /\ ~aborted /\ pc[w] = "ready"
                  /\ sok' = [sok EXCEPT ![w] = TRUE]
                  /\ chan' = Append(chan, tk[w])
            /\ pc' = [pc EXCEPT ![w] = "sent"]
-           /\ UNCHANGED <<len, src, tk, sendNext, out, cons, calls, aborted, srcAtDrop>>
+           /\ UNCHANGED <<hook, len, src, tk, sendNext, out, cons, calls, aborted, srcAtDrop>>
 
 \* the turn is passed on; the thread returns iff its send failed
 Advance(w) == /\ ~aborted /\ pc[w] = "sent"
               /\ sendNext' = tk[w] + 1
               /\ pc' = [pc EXCEPT ![w] = IF sok[w] THEN "top" ELSE "exit"]
-              /\ UNCHANGED <<len, src, tk, sok, chan, out, cons, calls, aborted, srcAtDrop>>
+              /\ UNCHANGED <<hook, len, src, tk, sok, chan, out, cons, calls, aborted, srcAtDrop>>
 
 Recv == /\ ~aborted /\ cons = "run" /\ chan # <<>>
         /\ out' = Append(out, Head(chan))
         /\ chan' = Tail(chan)
-        /\ UNCHANGED <<len, src, pc, tk, sok, sendNext, cons, calls, aborted, srcAtDrop>>
+        /\ UNCHANGED <<hook, len, src, pc, tk, sok, sendNext, cons, calls, aborted, srcAtDrop>>
 
 \* recv() fails once every sender is gone and the channel is empty
 End == /\ ~aborted /\ cons = "run" /\ chan = <<>>
        /\ \A w \in Workers : Gone(w)
        /\ cons' = "done"
-       /\ UNCHANGED <<len, src, pc, tk, sok, sendNext, chan, out, calls, aborted, srcAtDrop>>
+       /\ UNCHANGED <<hook, len, src, pc, tk, sok, sendNext, chan, out, calls, aborted, srcAtDrop>>
 
 Drop == /\ AllowDrop /\ ~aborted /\ cons = "run"
         /\ cons' = "dropped"
         /\ chan' = <<>>
         /\ srcAtDrop' = src
-        /\ UNCHANGED <<len, src, pc, tk, sok, sendNext, out, calls, aborted>>
+        /\ UNCHANGED <<hook, len, src, pc, tk, sok, sendNext, out, calls, aborted>>
+
+\* negative control only: Pipe::new installs the hook after spawning the workers
+InstallHook == /\ HookOn /\ HookLate /\ ~hook /\ ~aborted
+               /\ hook' = TRUE
+               /\ UNCHANGED <<len, src, pc, tk, sok, sendNext, chan, out, cons, calls, aborted, srcAtDrop>>
 
 WorkerStep(w) == Take(w) \/ Compute(w) \/ SpinOk(w) \/ Send(w) \/ Advance(w)
-Next == (\E w \in Workers : WorkerStep(w)) \/ Recv \/ End \/ Drop
+Next == (\E w \in Workers : WorkerStep(w)) \/ Recv \/ End \/ Drop \/ InstallHook
 
 Fairness == /\ \A w \in Workers : WF_vars(WorkerStep(w))
-            /\ WF_vars(Recv) /\ WF_vars(End)
+            /\ WF_vars(Recv) /\ WF_vars(End) /\ WF_vars(InstallHook)
 Spec == Init /\ [][Next]_vars /\ Fairness
 
 -----------------------------------------------------------------------------
